@@ -110,7 +110,7 @@ CHECK_FLAGS = {
 
 class Query:
     def __init__(self, qid, unit, harness_text, bounds=None, default_unwind=4, mode='functional', defines=(),
-                 expect='hold', timeout=900, mem_gb=12, inputs=('IN',), meta=None, fn_bounds=None, object_bits=None):
+                 expect='hold', timeout=900, mem_gb=12, inputs=('IN',), meta=None, fn_bounds=None, object_bits=12):
         self.id = qid; self.unit = unit; self.harness_text = harness_text
         self.bounds = dict(bounds or {})          # source function name -> unwind bound
         self.fn_bounds = dict(fn_bounds or {})    # C function name (regex) -> bound, for harness-side loops
